@@ -1,7 +1,10 @@
 (* C05 — comments are transparent: they never hide code and never change the
    parser's input; an unclosed block comment is an error located at its opener.
    Property theorems only: each is closed by [exact] of a lemma of
-   Proofs.PreprocessProofs, followed by Print Assumptions.
+   Proofs.PreprocessProofs / Proofs.ParseEntryProofs (the two comment-content
+   lemmas), followed by Print Assumptions.  All 22 are statements about the
+   stripper [preprocess]; see the note before the Examples for the parse
+   entry points.
 
    Vocabulary (Spec.LexSpec): a text is the list of its Unicode scalar values;
    47 = slash, 42 = star, 10 = newline, 32 = blank.  [preprocess] is the mirror
@@ -182,70 +185,26 @@ Theorem C05_line_comment_content_irrelevant : forall a c1 c2 b,
 Proof. exact line_comment_content_irrelevant. Qed.
 Print Assumptions C05_line_comment_content_irrelevant.
 
-(* --- the parse entry points (Model.ParseEntry) --------------------------- *)
-(* [parse_file parser finish] / [parse_string parser ok] mirror the data flow of
-   parser_logic.rs parse_file / parse_string: pre-process, stop at an unclosed
-   comment, else hand the pre-processed text (and nothing else) to the generated
-   parser.  The parser and the mapping of its answer are arbitrary functions:
-   the theorems hold for every parser.  They are consequences of the SHAPE of
-   the model (the parser has no other access to the source); that the code has
-   this shape is what the run-time comparison of ASTs observes. *)
-
-(* two sources with the same reference-lexer image cannot be told apart by
-   anything downstream of parse_file / parse_string *)
-Theorem C05_parse_file_sees_only_lexed_text :
-  forall (R A : Type) (parser : list N -> R) (finish : R -> outcome A) (s1 s2 : list N),
-  lex_spec s1 = lex_spec s2 -> parse_file parser finish s1 = parse_file parser finish s2.
-Proof. exact parse_file_sees_only_lexed_text. Qed.
-Print Assumptions C05_parse_file_sees_only_lexed_text.
-
-Theorem C05_parse_string_sees_only_lexed_text :
-  forall (R A : Type) (parser : list N -> R) (ok : R -> option A) (s1 s2 : list N),
-  lex_spec s1 = lex_spec s2 -> parse_string parser ok s1 = parse_string parser ok s2.
-Proof. exact parse_string_sees_only_lexed_text. Qed.
-Print Assumptions C05_parse_string_sees_only_lexed_text.
-
-(* the file with all its comments blanked parses to the same answer *)
-Theorem C05_parse_file_blank_invariant :
-  forall (R A : Type) (parser : list N -> R) (finish : R -> outcome A) (s : list N),
-  parse_file parser finish (blank_comments s) = parse_file parser finish s.
-Proof. exact parse_file_blank_invariant. Qed.
-Print Assumptions C05_parse_file_blank_invariant.
-
-(* what a comment says never reaches the parser *)
-Theorem C05_parse_file_block_comment_content_irrelevant :
-  forall (R A : Type) (parser : list N -> R) (finish : R -> outcome A) (a c1 c2 b : list N),
-  plain_code a -> block_comment c1 -> block_comment c2 -> text_bytes c1 = text_bytes c2 ->
-  parse_file parser finish (a ++ c1 ++ b) = parse_file parser finish (a ++ c2 ++ b).
-Proof. exact parse_file_block_comment_content_irrelevant. Qed.
-Print Assumptions C05_parse_file_block_comment_content_irrelevant.
-
-Theorem C05_parse_file_line_comment_content_irrelevant :
-  forall (R A : Type) (parser : list N -> R) (finish : R -> outcome A) (a c1 c2 b : list N),
-  plain_code a -> line_comment c1 -> line_comment c2 -> text_bytes c1 = text_bytes c2 ->
-  (b = [] \/ exists b', b = 10 :: b') ->
-  parse_file parser finish (a ++ c1 ++ b) = parse_file parser finish (a ++ c2 ++ b).
-Proof. exact parse_file_line_comment_content_irrelevant. Qed.
-Print Assumptions C05_parse_file_line_comment_content_irrelevant.
-
-(* a file that ends inside a block comment: the answer of parse_file is the
-   unclosed-comment error at the opener whatever the parser would say (it is not
-   run), and parse_string gives nothing *)
-Theorem C05_parse_file_unclosed_comment :
-  forall (R A : Type) (parser : list N -> R) (finish : R -> outcome A) (s : list N) (o : nat),
-  open_block_at_end s o -> parse_file parser finish s = Err (unclosed o).
-Proof. exact parse_file_unclosed_comment. Qed.
-Print Assumptions C05_parse_file_unclosed_comment.
-
-(* otherwise the parser runs on the file with its comment scalars blanked *)
-Theorem C05_parse_file_parser_input :
-  forall (R A : Type) (parser : list N -> R) (finish : R -> outcome A) (ok : R -> option A) (s : list N),
-  (exists o, open_block_at_end s o) \/
-  exists t, blanked s t /\ text_bytes t = text_bytes s /\
-            parse_file parser finish s = finish (parser t) /\
-            parse_string parser ok s = ok (parser t).
-Proof. exact parse_file_parser_input. Qed.
-Print Assumptions C05_parse_file_parser_input.
+(* --- the parse entry points: NO obligations here -------------------------
+   Model.ParseEntry mirrors the data flow of parser_logic.rs parse_file /
+   parse_string (pre-process, stop at an unclosed comment, else hand the
+   pre-processed text and nothing else to the generated parser) with the
+   parser as an arbitrary function [parser : list N -> R].  In that model the
+   parser has no access to the source, so "sources with the same lexer image
+   get the same answer", "the content of a comment never reaches the parser",
+   "an unclosed comment is answered before the parser runs" are parametricity
+   facts: they cannot fail, whatever the code does.  They are kept as lemmas
+   (Proofs.ParseEntryProofs: parse_file_sees_only_lexed_text,
+   parse_string_sees_only_lexed_text, parse_file_blank_invariant,
+   parse_file_block_comment_content_irrelevant,
+   parse_file_line_comment_content_irrelevant, parse_file_unclosed_comment,
+   parse_file_parser_input) as consequences of the modelled data flow and are
+   NOT counted as proof obligations of C05.  What carries the claim "nothing
+   downstream of parse_file sees a comment" is the run-time comparison of
+   lib/props/C05.py (part "parse entry"): the hook parser::verif::parse_source
+   (= parser_logic::parse_file) is run on every generated source and on two
+   other sources with the same reference-lexer image, and the complete AST
+   dumps / error reports must be identical (evidence: coverage.parse_entry). *)
 
 (* --- non-vacuity: the hypotheses are satisfiable, the shapes of the property
    text evaluate as stated, and the repaired defects stay repaired ---------- *)
@@ -285,19 +244,15 @@ Proof.
 Qed.
 
 (* two different sources with the same lexer image (a slash-star x star-slash b
-   and a slash-star star star-slash b), two block comments of the same byte
-   length with different content (one of them holds a 2-byte scalar), and the
-   parse entry points on concrete parsers: the identity parser shows the text
-   the parser is handed *)
-Example C05_parse_entry_witnesses :
+   and a slash-star star star-slash b) and two block comments of the same byte
+   length with different content (one of them holds a 2-byte scalar): the
+   hypotheses of the two content theorems are satisfiable by different comments *)
+Example C05_equal_image_witnesses :
   lex_spec [97; 47; 42; 120; 42; 47; 98] = lex_spec [97; 47; 42; 42; 42; 47; 98] /\
   [97; 47; 42; 120; 42; 47; 98] <> [97; 47; 42; 42; 42; 47; 98] /\
   block_comment [47; 42; 233; 42; 47] /\ block_comment [47; 42; 42; 42; 42; 47] /\
-  text_bytes [47; 42; 233; 42; 47] = text_bytes [47; 42; 42; 42; 42; 47] /\
-  parse_file (fun t => t) Ok [97; 47; 42; 42; 42; 47; 98] = Ok [97; 32; 32; 32; 32; 32; 98] /\
-  parse_file (fun t => t) Ok [97; 47; 42; 47; 42] = Err (unclosed 1) /\
-  parse_string (fun t => t) Some [97; 47; 47; 98] = Some [97; 32; 32; 32] /\
-  parse_string (fun t => t) Some [47; 42; 47] = None.
+  [47; 42; 233; 42; 47] <> [47; 42; 42; 42; 42; 47] /\
+  text_bytes [47; 42; 233; 42; 47] = text_bytes [47; 42; 42; 42; 42; 47].
 Proof.
   repeat split; try reflexivity.
   - discriminate.
@@ -305,4 +260,5 @@ Proof.
     intros (u & v & H). destruct u as [|? [|? u]]; try discriminate; destruct u; discriminate.
   - exists [42; 42]. split; [|reflexivity].
     intros (u & v & H). destruct u as [|? [|? [|? u]]]; try discriminate; destruct u; discriminate.
+  - discriminate.
 Qed.
